@@ -14,7 +14,10 @@ func kw(s string) string { return "ʞ" + s }
 
 // ---------------------------------------------------------------- C03: try / catch / finally
 
-type tryGen struct{ r *rng }
+type tryGen struct {
+	r      *rng
+	noText bool // a body fails INSIDE a Go builtin: the text of that error is Go's business, handlers do not print it
+}
 
 func (g *tryGen) thrown() MalType {
 	switch g.r.intn(8) {
@@ -40,7 +43,7 @@ func (g *tryGen) thrown() MalType {
 // expression that fails (one way or another) or not
 func (g *tryGen) body(depth int) MalType {
 	r := g.r
-	switch r.intn(12) {
+	switch r.intn(13) {
 	case 0, 1:
 		return call1("throw", g.thrown())
 	case 2:
@@ -61,6 +64,13 @@ func (g *tryGen) body(depth int) MalType {
 			return call1("map", sy("f-throw"), call1("list", g.thrown()))
 		}
 		return call1("map", ls(sy("fn"), vc(sy("x")), call1("throw", sy("x"))), vc(g.r.intn(3), 9)) // via a builtin callback
+	case 11:
+		// a failure INSIDE a context-taking builtin (run-time panic, arity, type): an ordinary, catchable error
+		g.noText = true
+		return []MalType{
+			call1("update", vc(1, 2), 7, sy("inc")), call1("update", HashMap{Val: map[string]MalType{kw("a"): 1}}), call1("swap!", 5, sy("inc")),
+			call1("deref", 5), call1("update-in", vc(1), vc(9, 9), sy("inc")), call1("apply", sy("+"), 1, 2), call1("map", sy("inc")),
+		}[r.intn(7)]
 	case 6:
 		if r.chance(1, 2) {
 			// arity error of a user function: the error value a handler sees (its text included) is part of what the program computes
@@ -107,6 +117,10 @@ func (g *tryGen) handler(depth int) []MalType {
 	case 6:
 		out = append(out, call1("quote", sy("e"))) // the symbol e as a value: must not be looked up again
 	case 9, 10:
+		if g.noText {
+			out = append(out, call1("list", sy("e"), call1("nil?", sy("e"))))
+			break
+		}
 		out = append(out, call1("str", sy("e"))) // the TEXT of the caught error / value is part of what the program computes
 	case 7:
 		out = append(out, call1("list", call1("quote", sy("trace!")), 7)) // (trace! 7) as data
@@ -170,6 +184,7 @@ var operandKinds = []MalType{
 	ls(sy("catch"), 5, 1), ls(sy("finally")), ls(sy("unquote")), ls(sy("splice-unquote")), ls(ls(sy("splice-unquote"))),
 	ls(sy("fn")), ls(sy("fn"), vc(sy("x")), sy("x")), ls(sy("fn"), ls(1), 2), ls(sy("fn"), ls(sy("&")), 2), ls(sy("fn"), ls(sy("a"), sy("&"), 1), 2),
 	true, ls(sy("throw"), 1), Set{Val: map[string]struct{}{}},
+	vc(sy("catch"), sy("e"), 1), vc(sy("finally"), 2), vc(sy("unquote"), 1), vc(sy("splice-unquote"), vc(1)), vc(sy("fn"), vc(), 1), vc(sy("quote"), 1),
 }
 
 var malformedHeads = []MalType{
@@ -316,6 +331,12 @@ func (g *qqGen) template(depth int) MalType {
 		case 4:
 			// VECTORS spelled like unquote forms are literal data (only lists are unquote forms)
 			items = append(items, vc(sy(r.pick([]string{"splice-unquote", "unquote"})), sy(r.pick([]string{"ys", "x", "vs"}))))
+		case 6:
+			// the bare SYMBOLS unquote / splice-unquote / quote at any position are ordinary data (`(a unquote x)`)
+			items = append(items, sy(r.pick([]string{"unquote", "splice-unquote", "quote", "quasiquote"})))
+			if r.chance(1, 2) {
+				items = append(items, sy(r.pick([]string{"x", "ys", "vs"})))
+			}
 		case 5:
 			// unquote forms with missing / surplus operands
 			items = append(items, []MalType{ls(sy("unquote")), ls(sy("splice-unquote")), ls(sy("unquote"), sy("x"), 99), ls(sy("splice-unquote"), sy("ys"), 99)}[r.intn(4)])
@@ -374,6 +395,9 @@ func (g *qqGen) macroProgram() (defs []MalType, callForm MalType) {
 		defs = append(defs, ls(sy("defmacro"), sy("m"), ls(sy("fn"), vc(sy("&"), sy("xs")),
 			call1("quasiquote", ls(sy("quote"), call1("unquote", sy("xs")))))))
 		callForm = ls(sy("m"), call1("trace!", 1), sy("undefined-sym"), ls(1, 2))
+		if r.chance(1, 3) {
+			callForm = ls(sy("m")) // no operand at all: xs is ()
+		}
 	case 2: // recursive macro
 		defs = append(defs, ls(sy("defmacro"), sy("m"), ls(sy("fn"), vc(sy("n"), sy("acc")),
 			ls(sy("if"), call1("<", sy("n"), 1), sy("acc"),
@@ -518,7 +542,7 @@ func collArgSmall(r *rng) MalType {
 	case 6:
 		return ls(4, 5)
 	case 7:
-		return "abc"
+		return r.pick([]string{"abc", "año", "a€", "ʞ", "", "日本"})
 	case 8:
 		return HashMap{Val: map[string]MalType{kw("a"): kw("b")}}
 	default:
@@ -676,6 +700,9 @@ func collCall(r *rng, depth int) MalType {
 	}
 	b := collBuiltins[r.intn(len(collBuiltins))]
 	n := b.arity[r.intn(len(b.arity))]
+	if r.chance(1, 8) {
+		n = r.intn(6) // any count: a dangling index / key, a missing or surplus argument is an error, never a silent drop
+	}
 	items := []MalType{sy(b.name)}
 	if orderExposing[b.name] {
 		for i := 0; i < n; i++ {
@@ -719,7 +746,13 @@ func (g *tailGen) wrap(e MalType, depth int) MalType {
 		return e
 	}
 	inner := g.wrap(e, depth-1)
-	switch g.r.intn(13) {
+	switch g.r.intn(14) {
+	case 13:
+		// tests spelled with not
+		if g.r.chance(1, 2) {
+			return ls(sy("if"), call1("not", false), inner, 0)
+		}
+		return ls(sy("if"), call1("not", call1("<", 0, 1)), 0, inner)
 	case 9:
 		// one-armed `if`: the then-branch is a tail position too
 		return ls(sy("if"), []MalType{true, 1, call1("<", 0, 1), kw("k")}[g.r.intn(4)], inner)
@@ -739,6 +772,15 @@ func (g *tailGen) wrap(e MalType, depth int) MalType {
 		}
 	case 12:
 		// the operator of the tail call is itself an expression yielding the closure
+		if l, ok := e.(List); ok && len(l.Val) == 2 && depth == 1 && g.r.chance(1, 2) {
+			if h, ok := l.Val[0].(Symbol); ok {
+				// the call form is BUILT by a threading macro: (-> arg h), (->> arg (h))
+				if g.r.chance(1, 2) {
+					return ls(sy("->"), l.Val[1], h)
+				}
+				return ls(sy("->>"), l.Val[1], ls(h))
+			}
+		}
 		if l, ok := e.(List); ok && len(l.Val) > 0 && depth == 1 {
 			if h, ok := l.Val[0].(Symbol); ok {
 				op := []MalType{
